@@ -383,7 +383,10 @@ struct Kernel {
 
   // Delta debugging over the operation list, then per-op simplification.
   Plan shrink(Plan plan, const std::string& cls, int budget) {
-    auto test = [&](const Plan& p) { if (budget <= 0) return false; --budget; return has_cls(execute(p), cls); };
+    // (also bounded in wall-clock time: re-executions of a plan whose fault branches run into their CPU limit take half a
+    //  minute each, and a worker that minimises for an hour holds up the whole batch)
+    time_t shrink_t0 = time(nullptr);
+    auto test = [&](const Plan& p) { if (budget <= 0 || time(nullptr) - shrink_t0 > 150) { budget = 0; return false; } --budget; return has_cls(execute(p), cls); };
     // 1. ddmin
     size_t n = 2;
     while (plan.ops.size() >= 2 && budget > 0) {
